@@ -339,6 +339,9 @@ pub struct LongLived {
     sb: Sandbox,
     opts: Opts,
     warm: Ctx,
+    /// a second long-lived context over the SAME user directory ("while other contexts are being used in the same
+    /// process"): it is told about every change of the user's list as well, and compared as well
+    second: Ctx,
     texts: usize,
     clock: u64,
 }
@@ -353,7 +356,8 @@ fn mk_long_lived(shard: usize) -> LongLived {
     opts.smart = shard & 2 != 0;
     opts.ansi = shard & 4 != 0 && shard & 8 != 0;
     let warm = Ctx::new(opts, &sb).expect("context");
-    LongLived { sb, opts, warm, texts: 0, clock: 4_000_000 }
+    let second = Ctx::new(opts, &sb).expect("context");
+    LongLived { sb, opts, warm, second, texts: 0, clock: 4_000_000 }
 }
 
 fn long_lived_case(c: &Case, lo: &mut LongLived, st: &mut Stats) -> Result<(), Failure> {
@@ -397,13 +401,30 @@ fn long_lived_case(c: &Case, lo: &mut LongLived, st: &mut Stats) -> Result<(), F
                 st.label("long-lived-context-was-in-a-fixed-layout-while-the-user-list-changed");
             }
             write(json!({ key.clone(): val, "zzq": "boi" }), lo.clock);
+            // both live contexts of this directory are told, in either order
+            if which % 2 == 0 {
+                lo.second.finish().map_err(pf)?;
+                lo.second.update(lo.opts, &lo.sb).map_err(pf)?;
+            }
             lo.warm.update(lo.opts, &lo.sb).map_err(pf)?;
+            if which % 2 == 1 {
+                lo.second.finish().map_err(pf)?;
+                lo.second.update(lo.opts, &lo.sb).map_err(pf)?;
+            }
             // the entry is in force from this update-engine on: compared at once with a brand-new context
             {
                 let fresh_now = Ctx::new(lo.opts, &lo.sb).map_err(pf)?;
                 for ch in target.chars() {
                     let a = lo.warm.ch(ch, 0).map_err(pf)?;
                     let b = fresh_now.ch(ch, 0).map_err(pf)?;
+                    let a2 = lo.second.ch(ch, 0).map_err(pf)?;
+                    if a2 != b {
+                        return Err(fail(
+                            "history-dependent-suggestion-long-lived-context",
+                            format!("text {target:?} at {ch:?} ({}), right after the user's list gained {key:?} and both live contexts of the directory were told: the SECOND live context shows {} but a brand-new context shows {}", lo.opts.letters(), a2.short(), b.short()),
+                            c,
+                        ));
+                    }
                     if a != b {
                         return Err(fail(
                             "history-dependent-suggestion-long-lived-context",
@@ -414,6 +435,7 @@ fn long_lived_case(c: &Case, lo: &mut LongLived, st: &mut Stats) -> Result<(), F
                 }
             }
             lo.warm.finish().map_err(pf)?;
+            lo.second.finish().map_err(pf)?;
             // while the entry is in force the context also composes the word under ONE other option value
             // (ANSI, English, smart quotes or the list itself), and comes back
             {
@@ -450,6 +472,7 @@ fn long_lived_case(c: &Case, lo: &mut LongLived, st: &mut Stats) -> Result<(), F
                 write(json!({ key.clone(): "kkk", "zzq": "boi" }), lo.clock + 10);
             }
             lo.warm.update(lo.opts, &lo.sb).map_err(pf)?;
+            lo.second.update(lo.opts, &lo.sb).map_err(pf)?;
             st.label("long-lived-context-saw-the-user-list-change");
         }
     }
